@@ -92,25 +92,11 @@ def run(ctx, anchors=None):
     from . import common as _cm
     _cm.require_names(cf, ["sigver", "execdata"], "R02.2")
     _cm.require_names(se, ["execdata", "env"], "R02.2")
-    tr_sv = [n for n in cf.nodes() if n["k"] == "assign" and astq.estr(n["lhs"]) == "sigver" and astq.estr(n["rhs"]).endswith("TAPROOT")]
-    ts_sv = [n for n in cf.nodes() if n["k"] == "assign" and astq.estr(n["lhs"]) == "sigver" and astq.estr(n["rhs"]).endswith("TAPSCRIPT")]
-    if not tr_sv or not ts_sv:
-        raise AnalysisBroken("R02.2: TAPROOT/TAPSCRIPT script-version assignments not found in configure_tx_txin")
-    need = {"m_annex_init": tr_sv + ts_sv, "m_tapleaf_hash_init": ts_sv, "m_validation_weight_left_init": ts_sv}
+    from . import c03_setup
     for flag, where in sorted(asserted.items()):
         ctx.site()
-        if flag in need:
-            sets = [n for n in cf.nodes() if n["k"] == "assign" and astq.estr(n["lhs"]).endswith(flag) and astq.const_value(n["rhs"]) == 1]
-            # value field assigned as well
-            val = flag[:-5]
-            vals = [n for n in cf.nodes() if (n["k"] == "assign" and astq.estr(n["lhs"]).endswith(val if val != "m_annex" else "m_annex_present")) or
-                    (n["k"] == "un" and False)]
-            ok = bool(sets) and all(any(ccfg.dominates(s_, tgt) or ccfg.must_pass_after(tgt, [s_]) for s_ in sets) for tgt in need[flag])
-            if flag == "m_tapleaf_hash_init":
-                vals = [n for n in cf.nodes() if n["k"] == "new" and "TaprootCommitmentEnv" in n.get("ty", "")]
-            ctx.inst(ok and bool(vals), "R02.2", "init=" + flag, cf.loc(sets[0]) if sets else cf.loc(),
-                     "%s (asserted at %s) is set, with its value, on every path that selects the taproot/tapscript version" % (flag, where),
-                     "%s is asserted at %s but configure_tx_txin can select TAPROOT/TAPSCRIPT without setting it: the first signature check aborts on the assertion" % (flag, where))
+        if flag in ("m_annex_init", "m_tapleaf_hash_init", "m_validation_weight_left_init"):
+            c03_setup.check_init_flag(ctx, fb, prog, flag, where)
         elif flag == "m_codeseparator_pos_init":
             sets = [n for n in se.nodes() if n["k"] == "assign" and astq.estr(n["lhs"]).endswith(flag) and astq.const_value(n["rhs"]) == 1]
             vals = [n for n in se.nodes() if n["k"] == "assign" and astq.estr(n["lhs"]).endswith("m_codeseparator_pos") and astq.const_value(n["rhs"]) == 0xFFFFFFFF]
